@@ -159,11 +159,11 @@ def run_history(cfg, ops, rseed=0):
             i = sent_id if op[3] == "right" else wrong(sent_id)
             if k == "garbage":
                 st["nrep"] += 1
-                begin({"e": "reply", "a": p.n, "i": i, "kind": "garbage", "rc": 0, "spoof": False})
+                begin({"e": "reply", "a": p.n, "i": i, "kind": "garbage", "rc": 0, "v": st["nrep"], "spoof": False})
                 data = b"\x00\x01"
             else:
-                begin({"e": "reply", "a": p.n, "i": i, "kind": op[4], "rc": op[5], "spoof": bool(op[6])})
                 data = message(i, port_name[p.n], op[4], op[5])
+                begin({"e": "reply", "a": p.n, "i": i, "kind": op[4], "rc": op[5], "v": st["nrep"], "spoof": bool(op[6])})
             if not p.closed:     # a datagram to a closed port is dropped by the OS
                 p.proto.datagramReceived(data, ("6.6.6.6", 53) if op[6] else servers[port_srv[p.n] - 1])
             end()
@@ -208,12 +208,12 @@ def run_history(cfg, ops, rseed=0):
                 i, name = q[0], q[1]
             if op[3] != "right":
                 i = wrong(i)
-            begin({"e": "tcpreply", "c": ci + 1, "i": i, "kind": op[4], "rc": op[5]})
+            data = message(i, name, op[4], op[5])
+            begin({"e": "tcpreply", "c": ci + 1, "i": i, "kind": op[4], "rc": op[5], "v": st["nrep"]})
             for qq in c["asked"]:
                 if qq[0] == i and not qq[2]:
                     qq[2] = True
                     break
-            data = message(i, name, op[4], op[5])
             c["proto"].dataReceived(struct.pack("!H", len(data)) + data)
             end()
         else:
